@@ -1,6 +1,7 @@
 import PycModel.Spec.Stmt
 import PycModel.Properties.Tables
 import PycModel.Proofs.SwitchRefine
+import PycModel.Proofs.StmtSkel
 /-!
 # C05 — statement ASTs mirror C's statement nesting and source order
 
@@ -101,5 +102,48 @@ example :
   · exact ⟨2, .caseStep _ _ _ _ (.caseLeaf _ _ _ rfl)⟩
   · cases hl
   · exact ⟨1, .defLeaf _ _ rfl⟩
+
+/-! ## statement nesting, for statements of any size and depth -/
+open PycModel.StmtSkel PycModel.View PycModel.FullExpr in
+/-- **Statement ASTs mirror C's statement nesting** (6.8): for every statement `st` of
+`S ::= X ; | ; | { S* } | if ( X ) S | if ( X ) S else S | while ( X ) S | do S while ( X ) ; |
+return X? ; | break ; | continue ;` (expressions `X` as in `C02`), of any size and nesting depth,
+`_parse_statement` of the parser model returns `st.val`: an `else` belongs to the nearest `if` that
+can take it (`WFS`: the `then` branch of an `if ... else` does not end with an `else`-less `if`),
+loop and branch bodies are the single following statement, the items of a block keep their source
+order, expression statements are their expression - and exactly the tokens of `st` are consumed.
+Nothing is assumed about the parser; braces move the scope stack at lex time (`View.lexScopes`). -/
+theorem statements_nest_as_the_grammar_says (st : S) (hwf : WFS st) (s : PState) (rest : List Tk)
+    (hs : SeesT s (st.flat ++ rest))
+    (hel : st.openIf = true → ∀ k v r, rest = (k, v) :: r → k ≠ "ELSE") (F : Nat) (hF : st.fuel ≤ F) :
+    ∃ s', run F .statement s = .ok (st.val s.idx) s' ∧ SeesT s' rest ∧ s'.idx = s.idx + st.ntoks :=
+  parse_stmt st hwf s rest hs hel F hF
+
+open PycModel.StmtSkel PycModel.View PycModel.FullExpr in
+/-- non-vacuity, the dangling else: `if ( a ) if ( b ) x ; else { y ; while ( c ) break ; }` - the
+`else` goes to the inner `if` -/
+example : ∃ s',
+    run 300 .statement
+      (initState ([("IF", "if"), ("LPAREN", "("), ("ID", "a"), ("RPAREN", ")"), ("IF", "if"), ("LPAREN", "("), ("ID", "b"),
+                   ("RPAREN", ")"), ("ID", "x"), ("SEMI", ";"), ("ELSE", "else"), ("LBRACE", "{"), ("ID", "y"), ("SEMI", ";"),
+                   ("WHILE", "while"), ("LPAREN", "("), ("ID", "c"), ("RPAREN", ")"), ("BREAK", "break"), ("SEMI", ";"),
+                   ("RBRACE", "}")].map (fun t => SEv.tok t.1 t.2) ++ [.eof]))
+      = .ok (mk .If (tc 0) [ParenExpr.idNode 2 "a",
+              mk .If (tc 4) [ParenExpr.idNode 6 "b", ParenExpr.idNode 8 "x",
+                mk .Compound (tc 11) [.list [ParenExpr.idNode 12 "y",
+                  mk .While (tc 14) [ParenExpr.idNode 16 "c", mk .Break (tc 18) []]]]],
+              .none]) s' ∧ SeesT s' [] := by
+  let st : S := .ifThen (.id "a") (.ifElse (.id "b") (.expr (.id "x"))
+    (.block (.cons (.expr (.id "y")) (.cons (.while_ (.id "c") .brk) .nil))))
+  have hwf : WFS st := by
+    refine .ifThen _ _ (.id _ _) (.ifElse _ _ _ (.id _ _) (.expr _ (.id _ _)) rfl ?_)
+    exact .block _ (.cons _ _ (.expr _ (.id _ _)) (.cons _ _ (.while_ _ _ (.id _ _) .brk) .nil))
+  have hs := ParenExpr.seesT_init [("IF", "if"), ("LPAREN", "("), ("ID", "a"), ("RPAREN", ")"), ("IF", "if"), ("LPAREN", "("), ("ID", "b"),
+    ("RPAREN", ")"), ("ID", "x"), ("SEMI", ";"), ("ELSE", "else"), ("LBRACE", "{"), ("ID", "y"), ("SEMI", ";"),
+    ("WHILE", "while"), ("LPAREN", "("), ("ID", "c"), ("RPAREN", ")"), ("BREAK", "break"), ("SEMI", ";"),
+    ("RBRACE", "}")]
+  obtain ⟨s', hr, hs', _⟩ := parse_stmt st hwf _ [] (by simpa [st, S.flat, SL.flat, X.flat] using hs)
+    (by intro _ k v r h; cases h) 300 (by decide)
+  exact ⟨s', hr, hs'⟩
 
 end PycModel.C05
